@@ -18,7 +18,8 @@ def run(ctx):
     scs = (scenarios.fam_events(rng, 120 if th else 14, th) + scenarios.fam_fanout(rng, 100 if th else 10, th) +
            scenarios.fam_close(rng, 0) + scenarios.fam_auto(rng, 40 if th else 6, th) +
            scenarios.fam_stall(rng, [1, 64] if not th else [1, 5, 64, 66]) + scenarios.fam_links(rng, False)[:3] +
-           scenarios.fam_events_gated(rng, 20 if th else 6) + scenarios.fam_events_server(rng, 12 if th else 4))
+           scenarios.fam_events_gated(rng, 20 if th else 6) + scenarios.fam_events_server(rng, 12 if th else 4) +
+           scenarios.fam_race(rng, 12 if th else 3))
     scs += _node.generated(ctx, "events") + _node.generated(ctx, "close")
     runs = _node.play(ctx, scs, binary=race, timeout=180, env_extra={"GORACE": "exitcode=0 halt_on_error=0 history_size=3"},
                       workers=max(2, vf.NCPU // 2))
@@ -34,8 +35,8 @@ def run(ctx):
                 ctx.notes.append("race report without gomavlib frames ignored in %s" % sc["name"])
                 continue
             reports += 1
-            funcs = re.findall(r"^\s+(github.com/bluenviron/gomavlib/v3[^\s(]*)", blk, re.M)
-            site = "+".join(sorted(set(f.split("/")[-1] for f in funcs))[:4])
+            funcs = re.findall(r"gomavlib/v3(?:/[\w/]+)?\.((?:\(\*?\w+\)\.)?\w+)\(", blk)
+            site = "+".join(sorted(set(funcs))[:4])
             ctx.finding("RACE:%s" % site, "data race reported in scenario %s" % sc["name"], {"scenario": sc, "report": blk[:3000]})
         ctx.distinct.add(_node.shape(sc))
     ctx.sample({"name": scs[0]["name"], "steps": scs[0]["steps"][:8]})
